@@ -274,6 +274,7 @@ def runAccept (tiS lineS extS implS goS : String) : Result :=
     let implPanic := its.head? == some "panic"
     let rownil := its.contains "rownil=1"
     let agree := its.contains "agree=1"
+    let nextOk := !(its.contains "next=0")
     let goValid := goS == "govalid=1"
     let recognised := Json.accepts line
     let m := getRow env ti line
@@ -298,6 +299,7 @@ def runAccept (tiS lineS extS implS goS : String) : Result :=
           else if !implOk && recognised && tiS == "T0" then some "rejected-valid-object"
           else if !implOk && !rownil then some "partially-filled-row-returned"
           else if !agree then some "entry-points-disagree"
+          else if !nextOk then some "next-line-not-as-alone"
           else none
         match d, p with
         | false, none => ⟨"S", ""⟩
